@@ -104,7 +104,9 @@ Definition runs_ok (fmt with_bg : bool) (to_c : rstyle -> option cstyle) (runs :
   forallb (fun x =>
              let mine := filter (fun c => r_begin c =? round_ms (fst x)) cs in
              match all_some (map (fun c => match runs (payload_text c) with Some r => map_runs to_c r | None => None end) mine) with
-             | Some rs => styled_eqb (visible_only (concat rs)) (expected_styled fmt with_bg (snd x))
+             | Some rs => let got := visible_only (concat rs) in
+                          if styled_eqb got (expected_styled false fmt with_bg (snd x)) then true
+                          else styled_eqb got (expected_styled true fmt with_bg (snd x))
              | None => false
              end) seq &&
   forallb (fun c => existsb (fun x => r_begin c =? round_ms (fst x)) seq) cs.
@@ -151,25 +153,23 @@ Definition trig_align_lost (cfg : vtt_config) (seq : list (Q * list elem)) : boo
                                           match agreed_align (flat_map paragraph_aligns scope) with Some (Some _) => true | _ => false end)
                             (snapshot_scopes (line_position cfg) (snd x))) seq.
 
-(* ---- triggers: per configuration [ruby; nested div; tags only; collapsed; unbounded; arrow; blank line; line range;
-   snapshot generation failed; SubRip markup in text; style reset in a nested span; alignment lost] (true = the trigger does NOT fire) ------------------------------ *)
-Definition ntrig : nat := 12.
+(* ---- triggers: per configuration [collapsed; arrow; blank line; snapshot generation failed; SubRip markup in text; style reset
+   in a nested span; alignment lost] (true = the trigger does NOT fire) ------------------------------ *)
+Definition ntrig : nat := 7.
 Definition srt_markup_in_text (cs : list cue) : bool :=
   existsb (fun c => existsb (fun p => match p with PChar _ => false | _ => true end) (srt_lex LText (cue_chars c))) cs.
-Definition trig_row (ruby nested reset alost : bool) (ws_lines : bool) (esc : Z -> text) (markup : bool) (cs : res (list cue)) : list bool :=
+Definition trig_row (reset alost : bool) (ws_lines : bool) (esc : Z -> text) (markup : bool) (cs : res (list cue)) : list bool :=
   match cs with
-  | Ok l => map negb [ruby; nested; trig_tags_only l; trig_collapsed l; trig_unbounded l; trig_arrow esc l;
-                      trig_blank_line ws_lines esc l; trig_line_range l; false; markup && srt_markup_in_text l; reset; alost]
-  | Err _ => map negb [ruby; nested; false; false; false; false; false; false; true; false; reset; alost]
+  | Ok l => map negb [trig_collapsed l; trig_arrow esc l; trig_blank_line ws_lines esc l; false; markup && srt_markup_in_text l; reset; alost]
+  | Err _ => map negb [false; false; false; true; false; reset; alost]
   end.
 Definition cases_triggers (d : doc) (srt : list (bool * pyout)) (vtt : list (vtt_config * pyout)) : list bool :=
   match isd_sequence d with
   | Ok seq =>
-      let ruby := trig_ruby seq in
       let reset := trig_reset_style seq in
-      flat_map (fun x => trig_row ruby false (fst x && reset) false true esc_none true (srt_cues (fst x) seq)) srt ++
-      flat_map (fun x => trig_row ruby (trig_nested_div (fst x) seq) reset (trig_align_lost (fst x) seq) false esc_vtt false
+      flat_map (fun x => trig_row (fst x && reset) false true esc_none true (srt_cues (fst x) seq)) srt ++
+      flat_map (fun x => trig_row reset (trig_align_lost (fst x) seq) false esc_vtt false
                                   (match vtt_cues (fst x) seq with Ok r => Ok (fst r) | Err c => Err c end)) vtt
-  | Err _ => flat_map (fun _ => map negb [false; false; false; false; false; false; false; false; true; false; false; false]) (map fst srt) ++
-             flat_map (fun _ => map negb [false; false; false; false; false; false; false; false; true; false; false; false]) (map fst vtt)
+  | Err _ => flat_map (fun _ => map negb [false; false; false; true; false; false; false]) (map fst srt) ++
+             flat_map (fun _ => map negb [false; false; false; true; false; false; false]) (map fst vtt)
   end.
